@@ -5,6 +5,7 @@ import (
 	stdecdsa "crypto/ecdsa"
 	stded "crypto/ed25519"
 	"crypto/elliptic"
+	"crypto/rsa"
 	"crypto/sha256"
 	"crypto/sha512"
 	"encoding/binary"
@@ -311,6 +312,16 @@ func t2Scenario() instance { return t2ScenarioH(false) }
 
 func t2ScenarioHist() instance { return t2ScenarioH(true) }
 
+// t2ScenarioRaw: the issuer's RSA key was assembled from its numbers (N, E, D, primes) and never
+// precomputed, as a key loaded from a database or an HSM export would be.
+func t2ScenarioRaw() instance {
+	rawRSA = true
+	defer func() { rawRSA = false }()
+	return t2ScenarioH(false)
+}
+
+var rawRSA bool
+
 func t2ScenarioH(history bool) instance {
 	ref := px.NewW2(0)
 	chal := fill("chal", 32)
@@ -319,7 +330,12 @@ func t2ScenarioH(history bool) instance {
 	st1, err := ref.Create(chal, fill("n1", 32), nil, nil)
 	must(err)
 	w0, w1 := append([]byte{}, st0.Request().Marshal()...), append([]byte{}, st1.Request().Marshal()...)
-	iss := type2.NewBasicPublicIssuer(px.FreshRSA(0))
+	key := px.FreshRSA(0)
+	if rawRSA {
+		key = &rsa.PrivateKey{PublicKey: rsa.PublicKey{N: new(big.Int).Set(key.N), E: key.E}, D: new(big.Int).Set(key.D),
+			Primes: []*big.Int{new(big.Int).Set(key.Primes[0]), new(big.Int).Set(key.Primes[1])}}
+	}
+	iss := type2.NewBasicPublicIssuer(key)
 	if history {
 		bad := &type2.BasicPublicTokenRequest{TokenKeyID: ref.KeyID[31], BlindedReq: bytes.Repeat([]byte{0xff}, 256)}
 		if _, err := iss.Evaluate(bad); err == nil {
@@ -802,6 +818,31 @@ func ed25519Scenario(variant int) func() instance {
 				func() { u2, ue2 = ed25519.UnblindPublicKeyWithContext(bk2, blindC[:32:32], []byte("ctx two")) },
 				func() { bpub, e3 = ed25519.BlindPublicKey(pub, blindB[:32:32]) },
 			}
+		case 4:
+			// ONE blinding key shared by three goroutines: a 32-byte slice of a larger buffer (spare
+			// capacity behind it), each call with its own context
+			shared := append(make([]byte, 0, 96), blind...)
+			in.bodies = []func(){
+				func() { bpub, e3 = ed25519.BlindPublicKeyWithContext(pub, shared, []byte("ctx one")) },
+				func() { s1 = ed25519.BlindKeySignWithContext(priv, m1, shared, []byte("context number two")) },
+				func() { u1, ue1 = ed25519.BlindPublicKeyWithContext(pub, shared, []byte("ctx 3")) },
+			}
+			in.check = func() (string, error) {
+				w1, _ := ed25519.BlindPublicKeyWithContext(pub, append([]byte{}, blind...)[:32:32], []byte("ctx one"))
+				w2, _ := ed25519.BlindPublicKeyWithContext(pub, append([]byte{}, blind...)[:32:32], []byte("context number two"))
+				w3, _ := ed25519.BlindPublicKeyWithContext(pub, append([]byte{}, blind...)[:32:32], []byte("ctx 3"))
+				if e3 != nil || ue1 != nil || !bytes.Equal(bpub, w1) || !bytes.Equal(u1, w3) {
+					return "", fmt.Errorf("concurrent BlindPublicKeyWithContext with a shared blinding key differs from the sequential result (%v %v)", e3, ue1)
+				}
+				if !stded.Verify(stded.PublicKey(w2), m1, s1) {
+					return "", fmt.Errorf("concurrent BlindKeySignWithContext with a shared blinding key: signature invalid under the blinded key")
+				}
+				if !bytes.Equal(shared, blind) {
+					return "", fmt.Errorf("the shared blinding key changed")
+				}
+				return "ok", nil
+			}
+			return in
 		default:
 			in.bodies = []func(){
 				func() { bpub, e3 = ed25519.BlindPublicKey(pub, blindB[:32:32]) },
@@ -1093,5 +1134,7 @@ var scenarios = []scenario{
 	{"type2-evaluate-evaluate-tokenkeyid-on-an-issuer-with-a-history", t2ScenarioHist},
 	{"ecdsa-two-blinding-keys-two-contexts", ecdsaScenario(2)},
 	{"ecdsa-sign-on-three-curves", ecdsaCurvesScenario},
+	{"ed25519-one-blinding-key-shared-by-three-calls", ed25519Scenario(4)},
+	{"type2-evaluate-evaluate-tokenkeyid-key-assembled-from-numbers", t2ScenarioRaw},
 	{"type3-attester-verifyrequest-honest-forged-honest", attesterScenario},
 }
